@@ -165,6 +165,11 @@ theorem generator_next_name_snapshot_witness :
     ones do to results is covered by the fresh-process / call-order sweep, not by this theorem. -/
 theorem process_wide_state_ok : processWideState = expectedProcessWideState := by decide +kernel
 
+/-- the UPPER_CASE tables (class-level or imported module-level dicts / sets) that anything mutates after their creation
+    (`.pop(`, `.update(`, `x[...] =`, `del x[...]`, …) are exactly the audited ones: a new late mutation of a shared table
+    — the usual source of import-order / call-order dependence — breaks the build -/
+theorem mutated_class_tables_ok : mutatedClassTables = expectedMutatedClassTables := by decide +kernel
+
 /-- the only writer of `_DISPATCH_CACHE` is `Generator.__init__`, the only writers of the dialect registry are the metaclass
     `__new__` and `_try_load`, and the fill has the audited shape `v = C.get(cls); if v is None: v = _build_dispatch(cls); C[cls] = v` -/
 theorem process_wide_tables_shape :
